@@ -21,6 +21,7 @@ docs/source/ser.rst.
 from __future__ import annotations
 
 import json
+import re
 from dataclasses import asdict
 from datetime import datetime, timezone
 from pathlib import Path
@@ -131,7 +132,10 @@ class JsonlTraceDriver(TraceDriver):
         # Directory mode: create separate runspace file
         path.mkdir(parents=True, exist_ok=True)
         timestamp = datetime.now().strftime("%Y%m%d-%H%M%S")
-        path = path / f"{timestamp}_runspace-{run_space_launch_id}.trace.jsonl"
+        # The launch id is caller-supplied text: only its file-name-safe form goes into
+        # the path (the records carry the id unchanged).
+        safe_id = re.sub(r"[^A-Za-z0-9._-]", "_", run_space_launch_id)
+        path = path / f"{timestamp}_runspace-{safe_id}.trace.jsonl"
         self._run_space_file = path.open("a", encoding="utf-8")
 
     # TraceDriver --------------------------------------------------------------
